@@ -624,6 +624,14 @@ func (w *World) checkSigEvent(ev *sigEvent) {
 				// one caller-owned options object, rewritten for every call
 				o := &w.verifyOpts
 				o.Hash, o.Encoding, o.RejectMalleable, o.SelfVerify = h, en.e, rm, false
+				if w.offerElsewhere {
+					// the signature is first offered to the same key object
+					// for another digest (whatever the answer - that is
+					// C07's business - it must not colour the next one)
+					other := append([]byte(nil), ev.digest...)
+					other[len(other)-1] ^= 0x01
+					_ = protect(func() { _ = pub.Verify(other, en.sig, o) })
+				}
 				if !pub.Verify(ev.digest, en.sig, o) {
 					w.r.Violate("C08", "lib-verify-rejects", fmt.Sprintf("Verify:enc=%d:rejmal=%v", en.e, rm), step, "%s: Verify(enc=%d, RejectMalleable=%v) rejects the signer's own signature %x", ev.sigDesc, en.e, rm, en.sig)
 				}
@@ -960,6 +968,10 @@ func (w *World) opWipeKeyBuffer(step int) {
 // distinct domain separators (a wallet that handles many protocols), checked
 // against the model's tagged hash; Schnorr signing afterwards must be what it
 // was before.
+// schemeTags are the tag strings of BIP-340 itself (and neighbours), used as
+// caller-chosen pre-hash names.
+var schemeTags = []string{"BIP0340/challenge", "BIP0340/aux", "BIP0340/nonce", "BIP0340", "BIP0340/", "TapLeaf", "TapTweak"}
+
 func (w *World) opPreHashBurst(step int) {
 	n := 200 + w.t.Choose("ops", "ph.n", 400)
 	base := w.t.U64("ops", "ph.base")
@@ -967,6 +979,10 @@ func (w *World) opPreHashBurst(step int) {
 	bad := 0
 	for i := 0; i < n && bad < 3; i++ {
 		name := fmt.Sprintf("verif/%x/%d", base, i)
+		if i < len(schemeTags) && base%4 == 0 {
+			// a caller may pick any name - also one the scheme itself uses
+			name = schemeTags[i]
+		}
 		var got []byte
 		var err error
 		po := protect(func() { got, err = bitcoin.PreHashSchnorrMessage(name, msg) })
